@@ -15,6 +15,7 @@ def arrLine (kind : String) (rest : List String) : String :=
   let ss := natL ((getKey rest "str").getD "-")
   let pv := (getKey rest "pv").bind String.toNat?
   let ck : CtrKind := if ((getKey rest "k").getD "vec") == "arr" then .array 64 else .vector
+  let isArr : Bool := ((getKey rest "k").getD "vec") == "arr"
   match mkLayoutN kind sp es ss pv with
   | none => "bad-op"
   | some L =>
@@ -35,6 +36,31 @@ def arrLine (kind : String) (rest : List String) : String :=
           | .vector => vals
           | .array m => (vals ++ List.replicate m 0).take m
         { s with pool := s.pool.step (.adopt (nn 1) ck L c) }
+      -- the remaining constructor spellings collapse to `ofMapping` / `adopt` / `convCons`
+      | "ci" => if kind == "stride" then emit "no-ctor" else { s with pool := s.pool.step (.ofMapping (nn 1) ck L) }
+      | "cea" | "cma" =>
+        if isArr then emit "no-ctor"
+        else if (a.headD "") == "cea" && kind == "stride" then emit "no-ctor"
+        else { s with pool := s.pool.step (.ofMapping (nn 1) ck L) }
+      | "ade" | "ame" | "adea" | "amea" | "adma" | "amma" =>
+        let c0 := a.headD ""
+        let withAlloc := c0.length == 4
+        let fromExt := (c0.toList.getD 2 'm') == 'e'
+        if (!withAlloc && kind == "stride") then emit "no-ctor"
+        else if withAlloc && isArr then emit "no-ctor"
+        else if withAlloc && fromExt && kind == "stride" then emit "no-ctor"
+        else
+          let vals := (parseList (a.getD 2 "-"))
+          let c : List Int := match ck with
+            | .vector => vals
+            | .array m => (vals ++ List.replicate m 0).take m
+          { s with pool := s.pool.step (.adopt (nn 1) ck L c) }
+      | "cv" | "cva" =>
+        match live (nn 2) with
+        | none => emit "skip"
+        | some sj =>
+          if (a.headD "") == "cva" && isArr then emit "no-ctor"
+          else { s with pool := s.pool.step (.convCons (nn 1) (nn 2) sj.map) }
       | "cc" => if (live (nn 2)).isSome then { s with pool := s.pool.step (.copyCons (nn 1) (nn 2)) } else emit "skip"
       | "mc" => if (live (nn 2)).isSome then { s with pool := s.pool.step (.moveCons (nn 1) (nn 2)) } else emit "skip"
       | "ca" => if (live (nn 1)).isSome && (live (nn 2)).isSome then { s with pool := s.pool.step (.copyAssign (nn 1) (nn 2)) } else emit "skip"
